@@ -335,6 +335,9 @@ func r2min(c *core.Ctx) {
 	c.Rule(R, "stgutg.Min returns one of its arguments and never the larger")
 	fn := mustFunc(c, pStg, "Min")
 	c.Analysed(core.FuncName(fn))
+	if r2minX(c, R, fn) {
+		return
+	}
 	p := core.NewPather(fn)
 	// cond → (which param is known <= the other when the condition is true / false)
 	type fact struct{ t, f string } // "p0<=p1", "p1<=p0", "" (nothing)
@@ -554,7 +557,26 @@ func r2mainBody(c *core.Ctx, RC, RO string, body *mainBody) int {
 			return false
 		}
 		if call, ok := b.(*ssa.Call); ok && core.CalleeName(call.Common()) == pStg+".Min" {
-			return le(call.Call.Args[0], target, depth+1) || le(call.Call.Args[1], target, depth+1)
+			if len(call.Call.Args) == 2 && (le(call.Call.Args[0], target, depth+1) || le(call.Call.Args[1], target, depth+1)) {
+				return true
+			}
+			// a minimum is <= a minimum over a subset of its operands (nested, reordered or variadic spelling)
+			lb, lt := minLeaves(p.Path(b)), minLeaves(target)
+			if len(lt) == 0 {
+				return false
+			}
+			for _, t := range lt {
+				found := false
+				for _, x := range lb {
+					if x == t {
+						found = true
+					}
+				}
+				if !found {
+					return false
+				}
+			}
+			return true
 		}
 		return false
 	}
